@@ -147,23 +147,33 @@ let () =
     let c = read_cfg () in
     let nops = next () in
     let s = ref (blank c) in
+    let ab = ref [] in        (* project.absence_time_list *)
     ps "CASE"; pi ci; nl ();
     for oi = 0 to nops - 1 do
-      let _opcode = next () in
-      let rule = z_of_int (next ()) in
-      let abs = next_list next_nat in
-      let auto_abs = next_bool () in
-      let ist = next_bool () in let ilg = next_bool () in
-      let mt = next_nat () in
-      let crank = next_list next_nat in
-      let o = { o_rule = rule; o_abs = abs; o_auto_abs = auto_abs; o_init_state = ist; o_init_log = ilg; o_max_time = mt; o_crank = crank } in
-      let (s', tr) = simulate c o !s in
-      s := s';
-      if want_snaps then
-        List.iter (fun ((k, ph), sn) -> ps "SNAP"; pi oi; pn k; pi (ph_int ph); nl (); print_live c sn) tr;
+      let opcode = next () in
+      (match opcode with
+       | 0 ->
+         let rule = z_of_int (next ()) in
+         let abs = next_list next_nat in
+         let auto_abs = next_bool () in
+         let ist = next_bool () in let ilg = next_bool () in
+         let mt = next_nat () in
+         let crank = next_list next_nat in
+         let o = { o_rule = rule; o_abs = abs; o_auto_abs = auto_abs; o_init_state = ist; o_init_log = ilg; o_max_time = mt; o_crank = crank } in
+         let (s', tr) = simulate c o !s in
+         s := s'; ab := abs;
+         if want_snaps then
+           List.iter (fun ((k, ph), sn) -> ps "SNAP"; pi oi; pn k; pi (ph_int ph); nl (); print_live c sn) tr
+       | 1 ->
+         let (ab', s') = remove_absence c (!ab, !s) in ab := ab'; s := s'
+       | 2 ->
+         let l = next_list next_nat in
+         let (ab', s') = insert_absence c l (!ab, !s) in ab := ab'; s := s'
+       | _ -> failwith "unknown opcode");
       ps "DUMP"; pi oi; nl ();
-      print_live c s';
-      print_logs c s'
+      print_live c !s;
+      print_logs c !s;
+      ps "LA"; pl pn !ab; nl ()
     done;
     ps "END"; nl ();
     print_string (Buffer.contents buf); Buffer.clear buf
